@@ -1,8 +1,11 @@
 package lab
 
 import (
+	"errors"
 	"fmt"
 	"strings"
+
+	"github.com/conduitio/conduit/pkg/pipeline"
 )
 
 // Violation is one failed clause. Key is stable (closed vocabulary) and is what
@@ -421,4 +424,149 @@ func (h *History) CheckC02(snaps SnapshotFn) []Violation {
 		}
 	}
 	return out
+}
+
+// statusCertain returns the pipeline status that is certain to be visible during the whole
+// log interval [from, to] ("" if a status write begins, or is still in progress, in it).
+func (h *History) statusCertain(from, to int) string {
+	cur, inProgress := "", false
+	for i, e := range h.Events {
+		if i > to {
+			break
+		}
+		switch e.Kind {
+		case EvStatusBegin:
+			if i >= from {
+				return ""
+			}
+			inProgress = true
+		case EvStatus:
+			inProgress = false
+			cur = e.Info
+			if j := strings.IndexByte(cur, ' '); j >= 0 {
+				cur = cur[:j]
+			}
+		}
+		if i == from && inProgress {
+			return ""
+		}
+	}
+	if inProgress {
+		return ""
+	}
+	return cur
+}
+
+// CheckC11Control checks the clauses of C11 that concern control calls and plugin instances.
+func (h *History) CheckC11Control(res *Result) []Violation {
+	var out []Violation
+	eng := h.Case.Engine
+	type inst struct {
+		comp string
+		n    int
+	}
+	open := map[inst]int{}   // instance -> index of its open event
+	live := map[string]int{} // comp -> number of open instances
+	isOpen := func(k string) bool { return k == EvSrcOpen || k == EvDstOpen }
+	isTear := func(k string) bool { return k == EvSrcTeardown || k == EvDstTeardown }
+	openAt := func(idx int) map[inst]bool { // source instances open at log index idx
+		m := map[inst]bool{}
+		for i, e := range h.Events {
+			if i >= idx {
+				break
+			}
+			if e.Kind == EvSrcOpen && e.Info == "" {
+				m[inst{e.Comp, e.Inst}] = true
+			}
+			if e.Kind == EvSrcTeardown {
+				delete(m, inst{e.Comp, e.Inst})
+			}
+		}
+		return m
+	}
+	// shape of the history (closed vocabulary) for the keys below
+	shape := "other"
+	for _, c := range res.Ctl {
+		if c.Kind == "start" && c != res.Ctl[0] {
+			if st := h.statusCertain(c.CallIdx, c.CallIdx); st == "Recovering" || st == "" {
+				shape = "start-during-recovery"
+			}
+		}
+	}
+	for i, e := range h.Events {
+		switch {
+		case isOpen(e.Kind) && e.Info == "":
+			open[inst{e.Comp, e.Inst}] = i
+			live[e.Comp]++
+			if live[e.Comp] > 1 {
+				out = append(out, Violation{Prop: "C11", Key: "C11/two-live-runs/" + eng + "/" + shape, Index: i,
+					Detail: fmt.Sprintf("connector %s has %d plugin instances open at the same time", e.Comp, live[e.Comp])})
+			}
+		case isTear(e.Kind):
+			if _, ok := open[inst{e.Comp, e.Inst}]; ok {
+				delete(open, inst{e.Comp, e.Inst})
+				live[e.Comp]--
+			}
+		}
+	}
+	if !res.Wedged && isTerminalName(res.FinalStatus.String()) {
+		allReturned := true
+		for _, c := range res.Ctl {
+			if !c.Returned {
+				allReturned = false
+			}
+		}
+		if allReturned {
+			for k := range open {
+				out = append(out, Violation{Prop: "C11", Key: "C11/plugin-left-open-after-run-ended/" + eng + "/" + shape, Index: len(h.Events),
+					Detail: fmt.Sprintf("plugin instance %s/%d is still open although the pipeline ended as %s", k.comp, k.n, res.FinalStatus)})
+				break
+			}
+		}
+	}
+	for _, c := range res.Ctl {
+		if !c.Returned {
+			continue
+		}
+		st := h.statusCertain(c.CallIdx, c.RetIdx)
+		switch c.Kind {
+		case "stop", "stopandwait", "stopwait", "forcestop":
+			if st == "Running" && c.Error() != nil && errors.Is(c.Error(), pipeline.ErrPipelineNotRunning) {
+				// the pipeline was reported running during the whole call, with a live source instance
+				liveBefore := openAt(c.CallIdx)
+				liveAfter := openAt(c.RetIdx)
+				for k := range liveBefore {
+					if liveAfter[k] {
+						out = append(out, Violation{Prop: "C11", Key: "C11/stop-misses-live-run/" + eng, Index: c.RetIdx,
+							Detail: fmt.Sprintf("%s answered %q although the pipeline was reported Running and %s/%d is live", c.Kind, truncate(c.Err, 120), k.comp, k.n)})
+						break
+					}
+				}
+			}
+		case "wait":
+			if st == "Running" {
+				liveBefore := openAt(c.CallIdx)
+				liveAfter := openAt(c.RetIdx + 1)
+				for k := range liveBefore {
+					if liveAfter[k] {
+						out = append(out, Violation{Prop: "C11", Key: "C11/wait-returned-before-run-ended/" + eng, Index: c.RetIdx,
+							Detail: fmt.Sprintf("WaitPipeline returned (%q) while %s/%d of the run it was issued against is still open", truncate(c.Err, 80), k.comp, k.n)})
+						break
+					}
+				}
+			}
+		case "start":
+			if c.Err != "" && (strings.Contains(c.Err, "connector is running") || strings.Contains(c.Err, "processor already running") || strings.Contains(c.Err, "processor is running")) {
+				if isTerminalName(st) {
+					out = append(out, Violation{Prop: "C11", Key: "C11/cannot-restart-after-run-ended/" + eng, Index: c.RetIdx,
+						Detail: fmt.Sprintf("Start failed with %q although the previous run had ended (%s)", truncate(c.Err, 160), st)})
+				}
+			}
+		}
+	}
+	return out
+}
+
+func isTerminalName(s string) bool {
+	return s == "UserStopped" || s == "SystemStopped" || s == "Degraded"
 }
